@@ -128,3 +128,4 @@ Proof.
   - split; [split; reflexivity|reflexivity].
   - split; [split; discriminate|discriminate].
 Qed.
+
